@@ -1045,6 +1045,8 @@ class MathShim:
 
 # ----------------------------------------------------------------------------- builtins
 def _conv_float(x=0.0):
+    if hasattr(x, "_symx_float"):
+        return x._symx_float()
     if isinstance(x, AR):
         return x.rational()
     if isinstance(x, SR):
@@ -1074,6 +1076,9 @@ def b_round(x, nd=None):
 
 
 def _conv_complex(re=0, im=0):
+    # harness-defined sample objects (e.g. (finite?, value) pairs) convert through their value
+    re = re._symx_value() if hasattr(re, "_symx_value") else re
+    im = im._symx_value() if hasattr(im, "_symx_value") else im
     if is_sym(re) or is_sym(im):
         if isinstance(re, SC):
             return re
